@@ -733,6 +733,24 @@ def r8(rr, repo):
         g = q.guards_of(c, stop=scan)
         gt = ' && '.join(U(t) for t, pol in g if pol)
         rr.ob('only regular files whose name matches the pattern are listed', 'os.path.isfile(' in gt and '.match(' in gt, mod, c, witness=gt[:120], key='scan-filter')
+    # the listing itself races with the writer's roll-overs: one listing can hold file n+1 and lack file n (entries added during a readdir scan may or may not show up); a follower that goes on
+    # in n+1 never comes back to n. What is taken from a listing is bounded by the newest file of an EARLIER listing: everything up to there existed before the later listing began.
+    lists = [c for c in ast.walk(scan) if isinstance(c, ast.Call) and U(c.func) in ('os.listdir', 'os.scandir')]
+    rr.floor('directory listings in the scan', len(lists), 1, mod, scan)
+    loops = [n for n in walk_scope(scan) if isinstance(n, ast.For) and any(x in lists for x in ast.walk(n.iter))]
+    if len(lists) == 1:
+        rr.ob('the files taken from a listing are bounded by the newest file of an earlier listing (a single listing can have a hole behind its newest entries)', False, mod, lists[0],
+              witness=f'{U(lists[0])} is the only listing', key='listing-complete-prefix')
+    elif len(loops) == 1 and len(lists) == 2:
+        lp = loops[0]
+        other = [c for c in lists if not any(x is c for x in ast.walk(lp.iter))]
+        bound = [n for n in walk_scope(scan) if isinstance(n, ast.Assign) and any(x is other[0] for x in ast.walk(n.value)) and 'max(' in U(n.value) and n.lineno < lp.lineno] if other else []
+        bname = U(bound[0].targets[-1]) if bound else None
+        tests = [t for st_ in lp.body if isinstance(st_, ast.If) for t in ast.walk(st_.test) if isinstance(t, ast.Compare) and len(t.ops) == 1 and isinstance(t.ops[0], (ast.LtE, ast.Lt)) and U(t.comparators[0]) == bname]
+        rr.ob('the files taken from a listing are bounded by the newest file of an earlier listing (a single listing can have a hole behind its newest entries)', bool(bound) and bool(tests) and isinstance(tests[0].ops[0], ast.LtE),
+              mod, lp, witness=f'bound: {U(bound[0])[:100] if bound else None}; test: {U(tests[0]) if tests else None}', key='listing-complete-prefix')
+    else:
+        rr.unresolved('how the scan combines its directory listings was not recognised', mod, lists[0], witness=f'{len(lists)} listings, {len(loops)} loops over one', key='listing-complete-prefix')
     sorts = [c for c in ast.walk(scan) if isinstance(c, ast.Call) and isinstance(c.func, ast.Attribute) and c.func.attr == 'sort' and not c.keywords] + \
             [c for c in ast.walk(scan) if isinstance(c, ast.Call) and U(c.func) == 'sorted' and not c.keywords]
     cdef = repo.find(f'{RL}::RollLogFile')[1]
@@ -837,3 +855,19 @@ def r12(rr, repo):
     for c in nx:
         par = parent(c)
         rr.ob('the newest file (never pruned) is taken from the same pairs: next(..)[1]', isinstance(par, ast.Subscript) and U(par.slice) == '1', mod, c, witness=U(par)[:40] if par is not None else '', key='prune-newest-from-pair')
+
+
+@rule('C13.R13', "a file name is used once in the life of a log, also across a restart of the writer: new_logfile keeps a new name above every timestamp the log has used - it compares with the newest file it has "
+                 "LISTED, and a restarted writer lists only what is still on disk; after the newest file was deleted externally a repeated (or smaller) timestamp gives the new file the deleted file's name (or one "
+                 "that sorts before it): a follower positioned in the deleted file takes the new one for the old (it resumes at its old byte offset - a torn record - or never looks at a file that sorts "
+                 "behind it). Ruling that out needs a high-water mark that survives the file (kept in the directory, or in the head file and checked by seek)")
+def r13(rr, repo):
+    mod, nl = repo.find(f'{RL}::RollLog.new_logfile')
+    guards = [n for n in walk_scope(nl) if isinstance(n, ast.If) and any(isinstance(c, ast.Compare) and isinstance(c.ops[0], (ast.LtE, ast.Lt)) for c in ast.walk(n.test))]
+    rr.floor('guards against a repeated or backwards timestamp in new_logfile', len(guards), 1, mod, nl)
+    for g in guards:
+        refs = {U(x) for x in ast.walk(g.test) if isinstance(x, (ast.Attribute, ast.Subscript))}
+        only_listed = any('logfiles[-1]' in r for r in refs) and not any(('high' in r or 'mark' in r or 'last_ts' in r or 'newest_ever' in r) and 'logfiles' not in r for r in refs)
+        persisted = any(isinstance(c, ast.Call) and U(c.func) in ('open', 'os.stat', 'os.path.getmtime', 'os.listdir') for c in ast.walk(nl))
+        rr.ob('the new name is kept above every timestamp the log has used, not only above the files that are still listed', (not only_listed) or persisted, mod, g,
+              witness=f'compared with: {sorted(r for r in refs if "logfiles" in r)}; nothing in new_logfile reads a mark that outlives the newest file', key='restart-forgets-deleted-newest')
